@@ -678,4 +678,344 @@ theorem pyBind_final (s : Sig) (hwf : s.wf = true) (kw : KW) (va : List V)
     · intro p hp hn
       exact hex p (hkw2 p hp).1 hn
 
+
+
+def toPyE {α : Type} : Except BindErr α → Except PyErr α
+  | .ok a => .ok a
+  | .error e => .error e.toPy
+
+theorem pyCall_eq (s : Sig) (c : Call) : pyCall s c = toPyE (pyBind s c) := by
+  unfold pyCall toPyE; cases pyBind s c <;> rfl
+
+theorem kget_some_mem {m : KW} {k : Name} {v : V} (h : kget m k = some v) : (k, v) ∈ m := by
+  induction m with
+  | nil => cases h
+  | cons p r ih =>
+    obtain ⟨k0, v0⟩ := p
+    rw [kget_cons] at h
+    by_cases e : k0 = k
+    · subst e; simp only [if_true] at h; cases h; exact List.mem_cons_self ..
+    · simp only [e, if_false] at h; exact List.mem_cons_of_mem _ (ih h)
+
+theorem mem_keys_of_mem {m : KW} {p : Name × V} (h : p ∈ m) : p.1 ∈ keys m := List.mem_map.2 ⟨p, h, rfl⟩
+
+theorem exists_of_mem_keys {m : KW} {k : Name} (h : k ∈ keys m) : ∃ p ∈ m, p.1 = k := by
+  obtain ⟨p, hp, e⟩ := List.mem_map.1 h; exact ⟨p, hp, e⟩
+
+/-- "F was built from the supplied arguments n₁". -/
+structure Built (s : Sig) (F : Functor) (n1 : Named) : Prop where
+  sig : F.sig = s
+  nodup : (keys F.bound).Nodup
+  named : F.bound.filter (fun p => s.names.contains p.1) = n1.named
+  extra : F.bound.filter (fun p => !s.names.contains p.1) = n1.extra
+  extraVarkw : ∀ p ∈ F.bound, s.names.contains p.1 = false → s.varkw.isSome = true
+  va : F.va.getD [] = n1.va
+  vaSome : F.va.isSome = true → s.varargs.isSome = true
+  noVaKey : ∀ p ∈ F.bound, s.varargs ≠ some p.1
+
+theorem zip_filter_not_names (s : Sig) (vs : List V) :
+    (s.posNames.zip vs).filter (fun p => !s.names.contains p.1) = [] := by
+  rw [List.filter_eq_nil_iff]
+  intro p hp
+  have : p.1 ∈ s.posNames := (List.of_mem_zip hp).1
+  simp only [Sig.pos_sub_names s this, Bool.not_true, Bool.false_eq_true, not_false_eq_true]
+
+
+theorem dropExtras_zip (s : Sig) (c : Call) (ign : Bool) :
+    s.posNames.zip (if ign = true then dropExtras s c else c).args = s.posNames.zip c.args := by
+  cases ign
+  · rfl
+  · simp only [if_true, dropExtras]
+    split
+    · have : s.pos.length = s.posNames.length := by simp [Sig.posNames]
+      rw [this, zip_take_right]
+    · rfl
+
+/-- The central lemma: what a functor built from `n₁` computes when called with arguments that
+name to `n₂` (patched code, fix F29). -/
+theorem functorCall_eq (s : Sig) (hwf : s.wf = true) (F : Functor) (n1 n2 : Named) (hB : Built s F n1)
+    (c2 : Call) (ovr? ign? : Option Bool)
+    (hc2 : c2.wf = true) (hav : ∀ p ∈ c2.kwargs, s.varargs ≠ some p.1)
+    (hn2 : nameArgs s (if ign?.getD F.ignoreExtraArgs = true then dropExtras s c2 else c2) = .ok n2)
+    (hcompat : ovr?.getD F.overrideArgs = true ∨ conflicts n1 n2 = false) :
+    functorCall true F c2 ovr? ign? = toPyE (complete s (mergeNamed n1 n2)) := by
+  obtain ⟨hsig, hnd, hnamed, hextra, hexv, hva, hvas, hnovk⟩ := hB
+  have hc2nd : (keys c2.kwargs).Nodup := by simpa [Call.wf] using hc2
+  have hpn := Sig.wf_pos_nodup hwf
+  have hall := Sig.wf_nodup hwf
+  -- the *args name is not a parameter name
+  have hvn : ∀ vn, s.varargs = some vn → vn ∉ s.names := by
+    intro vn hv hmem
+    simp only [Sig.allNames, hv, Option.toList_some, List.append_assoc] at hall
+    have := (List.nodup_append.1 hall).2.2 vn hmem vn (by simp) 
+    exact this rfl
+  generalize hign : ign?.getD F.ignoreExtraArgs = ign at hn2
+  generalize hovr : ovr?.getD F.overrideArgs = ovr at hcompat
+  have hzip := dropExtras_zip s c2 ign
+  generalize hc2' : (if ign = true then dropExtras s c2 else c2) = c2' at hn2 hzip
+  unfold nameArgs at hn2
+  cases hb : bindKw s c2'.kwargs ⟨s.posNames.zip c2'.args, c2'.args.drop s.pos.length, []⟩ with
+  | error e => rw [hb] at hn2; cases hn2
+  | ok n =>
+    rw [hb] at hn2
+    simp only at hn2
+    split at hn2
+    · cases hn2
+    · rename_i htm
+      cases hn2
+      obtain ⟨hnm, hnva, hnex, hfresh, hvk⟩ := bindKw_ok hb
+      simp only [List.nil_append] at hnex
+      simp only at hnva hfresh
+      rw [hzip] at hnm hfresh
+      -- (B) the keywords that survive
+      have hkws : c2'.kwargs = c2.kwargs.filter (keep s) := by
+        subst hc2'
+        cases hi : ign
+        · simp only [Bool.false_eq_true, if_false]
+          symm; rw [List.filter_eq_self]
+          intro p hp
+          simp only [hi, Bool.false_eq_true, if_false] at hvk
+          unfold keep
+          cases hn : s.names.contains p.1
+          · simp only [hvk p hp hn, Bool.or_true]
+          · rfl
+        · simp only [if_true, dropExtras]
+          cases hv : s.varkw with
+          | none =>
+            simp only [Option.isNone_none, if_true]
+            apply List.filter_congr; intro p _; simp [keep, hv]
+          | some w =>
+            simp only [Option.isNone_some, Bool.false_eq_true, if_false]
+            symm; rw [List.filter_eq_self]; intro p _; simp [keep, hv]
+      -- (C) the arity check of the functor passes
+      have hfirst : (decide (c2.args.length > s.pos.length) && s.varargs.isNone && !ign) = false := by
+        cases hi : ign
+        · subst hc2'
+          simp only [hi, Bool.false_eq_true, if_false] at htm hnva
+          cases hv : s.varargs.isNone
+          · simp
+          · rw [hv] at htm
+            simp only [Bool.and_true, Bool.not_eq_true', Bool.not_eq_false] at htm
+            have : n2.va = [] := by simpa using htm
+            rw [hnva, List.drop_eq_nil_iff] at this
+            simp; omega
+        · simp
+      -- (D) the surplus positionals seen by the functor
+      have hcallva : (if s.varargs.isSome = true then c2.args.drop s.pos.length else []) = n2.va := by
+        cases hv : s.varargs with
+        | none =>
+          simp only [Option.isSome_none, Bool.false_eq_true, if_false]
+          rw [hv] at htm
+          simp only [Option.isNone_none, Bool.and_true, Bool.not_eq_true', Bool.not_eq_false] at htm
+          symm; simpa using htm
+        | some vn =>
+          simp only [Option.isSome_some, if_true]
+          subst hc2'
+          rw [hnva]
+          cases ign
+          · rfl
+          · simp [dropExtras, hv]
+      have hspec_mem : ∀ k, F.specified.contains k = true → k ∈ keys F.bound ∨ s.varargs = some k := by
+        intro k hk
+        have hm := List.contains_iff_mem.1 hk
+        unfold Functor.specified at hm
+        rw [hsig] at hm
+        rcases List.mem_append.1 hm with h | h
+        · exact Or.inl h
+        · right
+          cases hv : s.varargs with
+          | none => simp [hv] at h
+          | some vn =>
+            cases hfa : F.va with
+            | none => simp [hv, hfa] at h
+            | some xs => simp [hv, hfa] at h; rw [h]
+      have hnotspec : ∀ k, k ∉ keys F.bound → s.varargs ≠ some k → F.specified.contains k = false := by
+        intro k h1 h2
+        cases hc : F.specified.contains k
+        · rfl
+        · rcases hspec_mem k hc with h | h
+          · exact absurd h h1
+          · exact absurd h h2
+      have hk1n : ∀ k, s.names.contains k = true → k ∈ keys F.bound → k ∈ keys n1.named := by
+        intro k hn hk
+        rw [← hnamed, keys_filter (fun k => s.names.contains k), List.mem_filter]; exact ⟨hk, hn⟩
+      have hk1e : ∀ k, s.names.contains k = false → k ∈ keys F.bound → k ∈ keys n1.extra := by
+        intro k hn hk
+        rw [← hextra, keys_filter (fun k => !s.names.contains k), List.mem_filter]; exact ⟨hk, by rw [hn]; rfl⟩
+      have hconf : ovr = true ∨ ((∀ p ∈ n2.named, p.1 ∉ keys n1.named) ∧ (∀ p ∈ n2.extra, p.1 ∉ keys n1.extra)) := by
+        rcases hcompat with h | h
+        · exact Or.inl h
+        · right
+          simp only [conflicts, Bool.or_eq_false_iff, List.any_eq_false] at h
+          exact ⟨fun p hp hk => h.1 p hp ((khas_iff _ _).2 hk), fun p hp hk => h.2 p hp ((khas_iff _ _).2 hk)⟩
+      have hvne : ∀ k, s.names.contains k = true → s.varargs ≠ some k := by
+        intro k hk hv; exact hvn k hv (List.contains_iff_mem.1 hk)
+      -- positional loop
+      have hpl : posLoop F.specified ovr (s.posNames.zip c2.args) F.bound
+          = .ok (mergeKw F.bound (s.posNames.zip c2.args)) := by
+        apply posLoop_ok
+        rcases hconf with h | h
+        · exact Or.inl h
+        · right
+          intro p hp
+          have hpn' : s.names.contains p.1 = true := Sig.pos_sub_names s (List.of_mem_zip hp).1
+          apply hnotspec
+          · intro hk
+            exact h.1 p (by rw [hnm]; exact List.mem_append_left _ hp) (hk1n _ hpn' hk)
+          · exact hvne _ hpn'
+      -- keyword loop
+      have hkl : ∀ slot, kwLoop true s F.specified (keys (s.posNames.zip c2.args)) ovr ign c2.kwargs
+            ⟨mergeKw F.bound (s.posNames.zip c2.args), slot⟩
+          = .ok ⟨mergeKw (mergeKw F.bound (s.posNames.zip c2.args)) c2'.kwargs, slot⟩ := by
+        intro slot
+        rw [hkws]
+        apply kwLoop_ok
+        · intro p hp
+          rw [contains_false_iff]
+          cases hn : s.names.contains p.1
+          · intro hk
+            rw [keys_zip] at hk
+            have := Sig.pos_sub_names s (List.mem_of_mem_take hk)
+            rw [hn] at this; cases this
+          · have hp' : p ∈ c2'.kwargs := by
+              rw [hkws, List.mem_filter]; exact ⟨hp, by simp only [keep, hn, Bool.true_or]⟩
+            rw [← kget_eq_none_iff]
+            exact hfresh p hp' hn
+        · rcases hconf with h | h
+          · exact Or.inl h
+          · right
+            intro p hp
+            apply hnotspec _ _ (hav p hp)
+            intro hk
+            cases hn : s.names.contains p.1
+            · obtain ⟨q, hq, hqe⟩ := exists_of_mem_keys hk
+              have hvk' := hexv q hq (by rw [hqe]; exact hn)
+              have hp' : p ∈ c2'.kwargs := by
+                rw [hkws, List.mem_filter]; exact ⟨hp, by simp only [keep, hvk', Bool.or_true]⟩
+              exact h.2 p (by rw [hnex, List.mem_filter]; exact ⟨hp', by rw [hn]; rfl⟩) (hk1e _ hn hk)
+            · have hp' : p ∈ c2'.kwargs := by
+                rw [hkws, List.mem_filter]; exact ⟨hp, by simp only [keep, hn, Bool.true_or]⟩
+              exact h.1 p (by rw [hnm]; exact List.mem_append_right _ (List.mem_filter.2 ⟨hp', hn⟩)) (hk1n _ hn hk)
+        · exact hav
+        · cases hi : ign
+          · right
+            intro p hp
+            have : c2' = c2 := by subst hc2'; simp [hi]
+            rw [this] at hvk
+            unfold keep
+            cases hn : s.names.contains p.1
+            · simp only [hvk p hp hn, Bool.or_true]
+            · rfl
+          · exact Or.inl rfl
+      have hzipnd : (keys (s.posNames.zip c2.args)).Nodup := by
+        rw [keys_zip]; exact List.Nodup.sublist (List.take_sublist _ _) hpn
+      have hkws2nd : (keys c2'.kwargs).Nodup := by
+        rw [hkws]
+        have : keys (c2.kwargs.filter (keep s)) = (keys c2.kwargs).filter (fun k => s.names.contains k || s.varkw.isSome) :=
+          keys_filter (fun k => s.names.contains k || s.varkw.isSome) c2.kwargs
+        rw [this]; exact List.Nodup.sublist List.filter_sublist hc2nd
+      have hn2nd : (keys n2.named).Nodup := by
+        rw [hnm]
+        simp only
+        rw [keys_append, List.nodup_append]
+        refine ⟨hzipnd, ?_, ?_⟩
+        · rw [keys_filter (fun k => s.names.contains k)]
+          exact List.Nodup.sublist List.filter_sublist hkws2nd
+        · intro a ha b hb e
+          subst e
+          obtain ⟨q, hq, hqe⟩ := exists_of_mem_keys hb
+          rw [List.mem_filter] at hq
+          have := hfresh q hq.1 hq.2
+          rw [hqe, kget_eq_none_iff] at this
+          exact this ha
+      have hn2end : (keys n2.extra).Nodup := by
+        rw [hnex, keys_filter (fun k => !s.names.contains k)]
+        exact List.Nodup.sublist List.filter_sublist hkws2nd
+      -- the final keyword_args of the functor
+      have hkwFnd : (keys (mergeKw (mergeKw F.bound (s.posNames.zip c2.args)) c2'.kwargs)).Nodup :=
+        nodup_keys_mergeKw _ _ (nodup_keys_mergeKw _ _ hnd)
+      have hkwFex : ∀ p ∈ mergeKw (mergeKw F.bound (s.posNames.zip c2.args)) c2'.kwargs,
+          s.names.contains p.1 = false → s.varkw.isSome = true := by
+        intro p hp hn
+        have hk := mem_keys_of_mem hp
+        rw [mem_keys_mergeKw, mem_keys_mergeKw] at hk
+        rcases hk with (hk | hk) | hk
+        · obtain ⟨q, hq, hqe⟩ := exists_of_mem_keys hk
+          exact hexv q hq (by rw [hqe]; exact hn)
+        · rw [keys_zip] at hk
+          have := Sig.pos_sub_names s (List.mem_of_mem_take hk)
+          rw [hn] at this; cases this
+        · obtain ⟨q, hq, hqe⟩ := exists_of_mem_keys hk
+          exact hvk q hq (by rw [hqe]; exact hn)
+      have hcongr : complete s (mergeNamed n1 n2) =
+          complete s ⟨mergeKw (mergeKw F.bound (s.posNames.zip c2.args)) c2'.kwargs, (mergeNamed n1 n2).va,
+            (mergeKw (mergeKw F.bound (s.posNames.zip c2.args)) c2'.kwargs).filter (fun p => !s.names.contains p.1)⟩ := by
+        apply complete_congr
+        · intro k hk
+          have hkc : s.names.contains k = true := List.contains_iff_mem.2 hk
+          simp only [mergeNamed]
+          rw [kget_mergeKw _ _ hn2nd, kget_mergeKw _ _ hkws2nd, kget_mergeKw _ _ hzipnd, hnm]
+          simp only
+          rw [kget_append, kget_filter (fun k => s.names.contains k), hkc, ← hnamed,
+            kget_filter (fun k => s.names.contains k), hkc]
+          simp only [if_true]
+          cases h1 : kget c2'.kwargs k with
+          | none => cases kget (s.posNames.zip c2.args) k <;> rfl
+          | some v =>
+            have := hfresh _ (kget_some_mem h1) hkc
+            simp only at this
+            rw [this]
+        · rfl
+        · simp only [mergeNamed]
+          rw [filter_mergeKw (fun k => !s.names.contains k), filter_mergeKw (fun k => !s.names.contains k),
+            zip_filter_not_names, mergeKw_nil, hextra, hnex]
+      have hvaF : (mergeNamed n1 n2).va ≠ [] → s.varargs.isSome = true := by
+        intro h
+        cases hv : s.varargs with
+        | some vn => rfl
+        | none =>
+          exfalso; apply h
+          have h2 : n2.va = [] := by rw [← hcallva, hv]; rfl
+          have h1 : n1.va = [] := by
+            rw [← hva]
+            cases hfa : F.va with
+            | none => rfl
+            | some xs => have := hvas (by rw [hfa]; rfl); rw [hv] at this; cases this
+          simp [mergeNamed, h1, h2]
+      have hfin := pyBind_final s hwf _ (mergeNamed n1 n2).va hkwFnd hkwFex hvaF
+      rw [hcongr]
+      unfold functorCall parseOverrides
+      simp only [hsig, hign, hovr, hfirst, Bool.false_eq_true, if_false, hpl, hkl]
+      generalize hla : listArgs s.pos (mergeKw (mergeKw F.bound (s.posNames.zip c2.args)) c2'.kwargs) = la at hfin
+      obtain ⟨l, missing, kw2⟩ := la
+      simp only at hfin ⊢
+      cases missing with
+      | cons m ms =>
+        simp only [List.isEmpty_cons, Bool.not_false, if_true]
+        rw [hfin.1 (by simp)]; rfl
+      | nil =>
+        simp only [List.isEmpty_nil, Bool.not_true, Bool.false_eq_true, if_false]
+        rw [← hfin.2 rfl, hcallva]
+        cases hv : s.varargs with
+        | none =>
+          have h2 : n2.va = [] := by rw [← hcallva, hv]; rfl
+          have h1 : n1.va = [] := by
+            rw [← hva]
+            cases hfa : F.va with
+            | none => rfl
+            | some xs => have := hvas (by rw [hfa]; rfl); rw [hv] at this; cases this
+          simp only [Option.isSome_none, Bool.false_eq_true, if_false, mergeNamed, h1, h2,
+            List.isEmpty_nil, if_true, List.append_nil, pyCall_eq]
+        | some vn =>
+          simp only [Option.isSome_some, if_true, mergeNamed]
+          cases hne : n2.va with
+          | cons a r =>
+            simp only [List.isEmpty_cons, Bool.not_false, if_true, Bool.false_eq_true, if_false, pyCall_eq]
+          | nil =>
+            simp only [List.isEmpty_nil, Bool.not_true, Bool.false_eq_true, if_false, if_true]
+            rw [← hva]
+            cases hfa : F.va with
+            | none => simp only [Option.getD_none, List.append_nil, pyCall_eq]
+            | some xs => simp only [Option.getD_some, pyCall_eq]
+
 end Pg.C18
